@@ -21,6 +21,7 @@ import (
 	"os"
 	"os/exec"
 	"reflect"
+	"regexp"
 	"runtime"
 	"strings"
 	"sync"
@@ -218,6 +219,21 @@ func c05Disassemble(c *Ctx, cases []*Case) {
 				tgt := ""
 				if strings.HasPrefix(f[1], "OpJump") && len(f) > 3 {
 					tgt = " " + strings.Trim(f[3], "()") // the jump target printed in parentheses
+				} else if len(f) > 3 {
+					// a constant operand: the fourth column renders the constant it indexes
+					var a int
+					fmt.Sscan(f[2], &a)
+					want := "<nil>"
+					if a < len(cs.B.Program.Constants) {
+						var k interface{} = cs.B.Program.Constants[a]
+						if re, ok := k.(*regexp.Regexp); ok {
+							k = re.String()
+						}
+						want = fmt.Sprintf("%#v", k)
+					}
+					if got := strings.Join(f[3:], "\t"); got != want {
+						return "(constant column of " + f[1] + " " + f[2] + ": " + got + " instead of " + want + ")"
+					}
 				}
 				parts = append(parts, "("+f[0]+" "+f[1]+" "+arg+tgt+")")
 			}
